@@ -294,7 +294,7 @@ func runC10(rc *sim.RunCtx) {
 func init() {
 	Register(&sim.Check{
 		ID: "C10", Level: "exploration", Run: runC10,
-		Rule: "C01 histories (profiles core, presence, choice; no orphan) on the direct device, which asks the SAME tree instance for the proto updates/deletes, JSON, JSON_IETF and the XML document for all 8 option combinations, each for onlyNewOrUpdated true and false. Every view is decoded by the harness's own schema-driven decoders and applied to a copy of the prior device state under its protocol's semantics (gNMI Set; RFC 6241 edit-config merge with delete/remove/replace); all resulting states must be equal, full views must hold the same leaf set. XML clauses: well-formed, every element named, namespaces resolve to the schema node's namespace, list keys first in key-statement order, delete/remove and nc-prefix as configured. Non-trivial = a Set with content; distinct = C01 signature.",
+		Rule: "C01 histories (profiles core, presence, choice; no orphan) on the direct device, which asks the SAME tree instance for the proto updates/deletes, JSON, JSON_IETF and the XML document for all 8 option combinations, each for onlyNewOrUpdated true and false. Every view is decoded by the harness's own schema-driven decoders and applied to a copy of the prior device state under its protocol's semantics (gNMI Set; RFC 6241 edit-config merge with delete/remove/replace); all resulting states must be equal (under the YANG reading of presence containers), full views must hold the same leaf set. Wire leg (half of the runs): the device is the real gnmiTarget (proto / json / json_ietf); the SetRequest it puts on the wire must be decodable and must have the same effect as the proto view of the same tree on a shadow device. XML clauses: well-formed, every element named, namespaces resolve to the schema node's namespace, list keys first in key-statement order, delete/remove and nc-prefix as configured. Non-trivial = a Set with content; distinct = C01 signature.",
 		Real: append(append([]string{}, realCore...), "pkg/tree json.go/xml.go/proto.go, pkg/utils xml.go/value.go"), Stub: stubCore,
 		Assume:         []string{"the harness decoders (world/jsondec.go, world/xmldec.go) implement RFC 7951 / RFC 6241 semantics for the vsim schema"},
 		RequiredProbes: []string{"leaflist-update", "delete-in-change"},
